@@ -3127,6 +3127,15 @@ fn normalize_in_place_if_needed(distance: DistanceMetric, embedding: &mut [f32])
     if (NORMALIZATION_NORM_SQ_MIN..=NORMALIZATION_NORM_SQ_MAX).contains(&norm_sq) {
         return Ok(());
     }
+    // A squared norm that overflowed to infinity would scale every lane by 1/sqrt(inf) = 0: the
+    // all-zero result is finite, so with `disable_normalization_check` it would be logged and
+    // acknowledged, and this same function then refuses it ("norm is zero") during recovery.
+    if !norm_sq.is_finite() {
+        anyhow::bail!(
+            "embedding norm is not finite; cannot normalize for {:?}",
+            distance
+        );
+    }
 
     let inv_norm = 1.0 / norm_sq.sqrt();
     for v in embedding {
